@@ -9,8 +9,10 @@ CONSTANTS Ns,        \* set of sample counts
           SmpMode,   \* "all": every sequence over Vals x Wts;  "generic": fixed patterns cut to length n;
                      \* "zeromask": the patterns with the weights of a set Z of positions set to exactly zero
           Gens,      \* which of the fixed patterns
+          WSNum, WSDen, \* WScale = WSNum / WSDen (cfg files have no rationals)
           Export
 
+MCWScale == R(WSNum, WSDen)
 QPairs == {[v |-> Q(a), w |-> R(b, WDen)] : a \in Vals, b \in Wts}
 GenV == << <<2, 0, 5, 1, 3, 3, 0, 4, 2, 5, 1, 0>>,
            <<1, 1, 1, 4, 0, 2, 5, 5, 3, 0, 2, 4>>,
